@@ -33,3 +33,11 @@ json.dump(m,open('/verif/MANIFEST.json','w'),indent=1)
 import jsonschema
 jsonschema.validate(m,json.load(open('/root/.vp/MANIFEST.schema.json')))
 print("MANIFEST ok:",len(checks),"checks,",len(na),"not_applicable")
+# consistency: the level each check writes into its evidence must equal the manifest's category
+import os
+for c in checks:
+    f=c['evidence_file']
+    if os.path.exists(f):
+        e=json.load(open(f))
+        if e['level']!=c['level_claimed']['category']:
+            print("WARNING: evidence level of",c['property_id'],"is",e['level'],"but manifest says",c['level_claimed']['category'])
